@@ -148,6 +148,7 @@ func c01Property(t *rapid.T) {
 	defer w.N.Destroy()
 	g := newHistGen(t, w)
 	g.replays = 6 // primary and replicas
+	g.stormOneIn = 5
 	// favour the map-heavy paths
 	g.weights = append(g.weights, "group", "group", "group", "group", "ibtp-req", "ibtp-rcpt", "gov-vote", "gov-lifecycle", "gov-register-service", "eth", "eth")
 	var ops []string
@@ -392,6 +393,9 @@ func c01Property(t *rapid.T) {
 	}
 	if pipelinedBursts > 0 {
 		classes = append(classes, "replica-pipelined-bursts")
+	}
+	if g.kinds["signature-storm"] > 0 {
+		classes = append(classes, "signature-storm-block")
 	}
 	if lifeEpisodes > 0 {
 		classes = append(classes, "pause-resume-episode")
